@@ -83,6 +83,27 @@ Definition run (s : state) (sched : list action) : state := fold_left step sched
 Definition init (n : nat) (ts : list (bool * bool * bool)) : state :=
   mkS n (map (fun x => mkT (fst (fst x)) (snd (fst x)) (snd x) PStart) ts) MFree.
 
+(* ---- quiescence of the thread-level model (link to the count model) ---- *)
+(* a thread that cannot move on its own (an inner operation that is running counts as stuck: its
+   completion is the test script's Release command) *)
+Definition stuck (s : state) (t : thread) : bool :=
+  match t_pc t with
+  | PStart => false
+  | PWant => negb (Nat.ltb (tokens s) (cap s))
+  | PAtGate => negb (mtx_is_free (mx s))
+  | PInGate => false
+  | PRun => negb (t_cancel t)
+  | PDone => true
+  end.
+Definition quiescent (s : state) : bool := forallb (stuck s) (thr s).
+
+(* non-lock, non-cancelled calls that are past the handle check and have not returned:
+   q_wait + q_run of the count model *)
+Definition pend (t : thread) : bool :=
+  andb (negb (t_lock t)) (andb (negb (t_cancel t))
+       (match t_pc t with PWant | PAtGate | PInGate | PRun => true | _ => false end)).
+Definition pendN (s : state) : nat := count pend (thr s).
+
 (* ---------- (2) quiescent count model ---------- *)
 Inductive cmd :=
   | CLaunch (lock valid cancel : bool)   (* start one backend call in its own goroutine *)
